@@ -6,7 +6,12 @@
    Dead last_value; `sys_step` = one operation of a client that keeps the objects it was handed.
    Specification: `dict_step` on an association list keyed by (namespace, local name) plus the client's
    views (VLive key | VDead value).  `deconstruct_clark_notation` is Gen/GenAttr.v, regenerated from
-   _delb/names.py on every run; the model is defined in terms of it. *)
+   _delb/names.py on every run; the model is defined in terms of it.  The model follows /repo after the
+   fixes bde0777, 3e7a286, 159ed68, bed1ba7.
+   Remaining hypotheses: `sys_wf` contains no_collision (no store key {d}name for the default namespace d:
+   there the accessor ("", name) still misses the entry, C11_refuted_collision) and `step_safe` contains
+   no_stale (no second held live object on an entry that is being removed, C11_refuted_second_view); the
+   rest of both is the stated domain (legal accessors without braces, references to objects obtained). *)
 From Coq Require Import List NArith Bool.
 From Delb.Base Require Import PyStr PySplit.
 From Delb.Gen Require Import GenAttr.
@@ -32,40 +37,57 @@ Theorem C11_refines_run : forall y l, sys_wf y = true -> run_safe y l = true -> 
 Proof. exact refines_run_all. Qed.
 Print Assumptions C11_refines_run.
 
-(* Full statement (no guard): forall y l, sys_wf y = true -> run_ok y l.  It is false of the faithful model: *)
+(* Full statement (no guard): forall y l, sys_wf y = true -> run_ok y l.  It is false of the faithful model
+   of the code as repaired by bde0777, 3e7a286, 159ed68; two classes remain: *)
 
-(* DESIGN finding 23: fetch, re-set, delete: the object fetched first raises KeyError (specification: "2") *)
-Theorem C11_refuted_stale : exists y l, sys_wf y = true /\ run_disagrees y l.
-Proof.
-  exists (init_sys [] [] []).
-  exists [OSet (AStr [107%N]) [49%N]; OGet (AStr [107%N]); OSet (AStr [107%N]) [50%N]; ODel (AStr [107%N]); OValue 0].
-  split; [vm_compute; reflexivity|]. exists 4, (RStr [50%N]), RKeyError. vm_compute.
-  repeat split; try reflexivity; discriminate.
-Qed.
-Print Assumptions C11_refuted_stale.
-
-(* renaming between "no namespace" and the default namespace deletes the entry (specification: len 1) *)
-Theorem C11_refuted_alias_rename : exists y l, sys_wf y = true /\ run_disagrees y l.
+(* two live objects for one entry (here: fetched under both spellings of the key, no namespace and the
+   default namespace d): deleting the entry detaches only the object cached for the spelling used, the
+   other one raises KeyError (specification: "1") *)
+Theorem C11_refuted_second_view : exists y l, sys_wf y = true /\ run_disagrees y l.
 Proof.
   exists (init_sys [100%N] [100%N] [([107%N], [49%N])]).
-  exists [OGet (AStr [107%N]); OSetNs 0 []; OLen].
-  split; [vm_compute; reflexivity|]. exists 2, (RNat 1), (RNat 0). vm_compute.
+  exists [OGet (APair (Some []) [107%N]); OGet (AStr [107%N]); ODel (AStr [107%N]); OValue 0].
+  split; [vm_compute; reflexivity|]. exists 3, (RStr [49%N]), RKeyError. vm_compute.
   repeat split; try reflexivity; discriminate.
 Qed.
-Print Assumptions C11_refuted_alias_rename.
+Print Assumptions C11_refuted_second_view.
 
-(* DESIGN findings 13b/13e: the store holds {d}k while d is the default namespace in scope; everything
-   else is well-formed and the operations are inside the guard, yet len is 2 (specification: 1) *)
+(* the store holds {d}k while d is the default namespace in scope (DESIGN 13b/13e): since bde0777 the
+   entry is reachable as (d, k), but not under the spelling ("", k) of the same dictionary key; everything
+   else is well-formed and the operations are inside the guard *)
 Theorem C11_refuted_collision : exists y l,
   store_shape (fst y) = true /\ cache_ok (fst y) = true /\ snd y = [] /\ no_collision (fst y) = false /\
   run_safe y l = true /\ run_disagrees y l.
 Proof.
   exists (init_sys [100%N] [100%N] [(123%N :: 100%N :: 125%N :: [107%N], [48%N])]).
-  exists [ONodeSet (AStr [107%N]) [49%N]; OLen].
-  repeat split; try (vm_compute; reflexivity). exists 1, (RNat 1), (RNat 2). vm_compute.
+  exists [OContains (APair (Some []) [107%N]); OSet (APair (Some []) [107%N]) [49%N]; OLen].
+  repeat split; try (vm_compute; reflexivity). exists 0, (RBool true), (RBool false). vm_compute.
   repeat split; try reflexivity; discriminate.
 Qed.
 Print Assumptions C11_refuted_collision.
+
+(* regression examples: the witnesses of the findings repaired in /repo now agree with the dictionary *)
+Example C11_fixed_stale_view :      (* 3e7a286: fetch, re-set, delete, read the object fetched first *)
+  let y := init_sys [] [] [] in
+  let l := [OSet (AStr [107%N]) [49%N]; OGet (AStr [107%N]); OSet (AStr [107%N]) [50%N]; ODel (AStr [107%N]); OValue 0] in
+  sys_wf y = true /\ run_safe y l = true /\ snd (sys_run y l) = [RNone; RObj 0; RNone; RNone; RStr [50%N]].
+Proof. vm_compute. repeat split; reflexivity. Qed.
+Example C11_fixed_rename_then_delete :   (* 3e7a286: rename through the object, delete the new key *)
+  let y := init_sys [] [] [([107%N], [49%N])] in
+  let l := [OGet (AStr [107%N]); OSetLocal 0 [106%N]; ODel (AStr [106%N]); OValue 0] in
+  sys_wf y = true /\ run_safe y l = true /\ snd (sys_run y l) = [RObj 0; RNone; RNone; RStr [49%N]].
+Proof. vm_compute. repeat split; reflexivity. Qed.
+Example C11_fixed_alias_rename :    (* 159ed68: attr.namespace = "" under the default namespace d *)
+  let y := init_sys [100%N] [100%N] [([107%N], [49%N])] in
+  let l := [OGet (AStr [107%N]); OSetNs 0 []; OLen; OValue 0] in
+  sys_wf y = true /\ run_safe y l = true /\ snd (sys_run y l) = [RObj 0; RNone; RNat 1; RStr [49%N]].
+Proof. vm_compute. repeat split; reflexivity. Qed.
+Example C11_fixed_collision_reachable :   (* bde0777: the stored {d}k is reached and overwritten, len stays 1 *)
+  let y := init_sys [100%N] [100%N] [(123%N :: 100%N :: 125%N :: [107%N], [48%N])] in
+  let l := [ONodeSet (AStr [107%N]) [49%N]; OLen; OIter] in
+  snd (sys_run y l) = [RNone; RNat 1; RKeys [([100%N], [107%N])]] /\
+  snd (dict_run (abs_sys y) l (snd (sys_run y l))) = snd (sys_run y l).
+Proof. vm_compute. split; reflexivity. Qed.
 
 Theorem C11_refuted_means_not_ok : forall y l, run_disagrees y l -> ~ run_ok y l.
 Proof. exact disagrees_not_ok. Qed.
@@ -92,8 +114,10 @@ Theorem C11_accessors_ops : forall s a1 a2,
 Proof. exact astep_resolve. Qed.
 Print Assumptions C11_accessors_ops.
 
-(* and "no namespace" / "the default namespace in scope" reach the same store entry *)
-Theorem C11_accessors_default_ns : forall dns name, etree_key dns ([], name) = etree_key dns (dns, name).
+(* and "no namespace" / "the default namespace in scope" reach the same store entry (unless the store holds
+   `{d}name` for the default namespace d: the remaining collision class) *)
+Theorem C11_accessors_default_ns : forall dns st name,
+  ahas str_eqb st (clark (dns, name)) = false -> etree_key dns st ([], name) = etree_key dns st (dns, name).
 Proof. exact alias_same_entry. Qed.
 Print Assumptions C11_accessors_default_ns.
 
@@ -124,7 +148,7 @@ Qed.
 Print Assumptions C11_views_spec.
 
 (* ... and the model inherits it on every guarded run by C11_refines_run; spelled out for the case the
-   tests cannot enumerate (DESIGN finding 23): inside the guard, a held object whose entry is deleted
+   tests cannot enumerate (DESIGN finding 23, repaired by 3e7a286 for a single view per entry): inside the guard, a held object whose entry is deleted
    through any accessor answers with the entry's last value *)
 Theorem C11_views : forall y a i k v,
   sys_wf y = true -> step_safe y (ODel a) = true -> acc_key (abs_sys y) a = Some k ->
@@ -133,25 +157,18 @@ Theorem C11_views : forall y a i k v,
 Proof. exact view_keeps_value. Qed.
 Print Assumptions C11_views.
 
-(* TagAttributes.__eq__ (equal sizes, then every item of self found in other with an equal value) is
-   equality of the two dictionaries, for nodes with the same default namespace in scope *)
+(* TagAttributes.__eq__ (equal sizes, then every item of self has its key among other's keys and is found
+   in other with an equal value) is equality of the two dictionaries, whatever the two default namespaces *)
 Theorem C11_eq : forall s1 s2,
-  sys_wf (s1, []) = true -> sys_wf (s2, []) = true -> st_dns s2 = st_dns s1 ->
+  sys_wf (s1, []) = true -> sys_wf (s2, []) = true ->
   exists b, attrs_eq s1 s2 = RBool b /\
             (b = true <-> dict_equiv (abs_store (st_dns s1) (st_store s1)) (abs_store (st_dns s2) (st_store s2))).
 Proof. exact attrs_eq_dict. Qed.
 Print Assumptions C11_eq.
 
-(* Full statement (without `st_dns s2 = st_dns s1`) is false: <a k="v"/> and <a xmlns="d" k="v"/> present
-   {("","k"): "v"} and {("d","k"): "v"} but compare equal *)
-Theorem C11_eq_refuted : exists s1 s2,
-  sys_wf (s1, []) = true /\ sys_wf (s2, []) = true /\ attrs_eq s1 s2 = RBool true /\
-  dict_eqb (abs_store (st_dns s1) (st_store s1)) (abs_store (st_dns s2) (st_store s2)) = false.
-Proof.
-  exists (init_state [] [] [([107%N], [118%N])]), (init_state [100%N] [100%N] [([107%N], [118%N])]).
-  vm_compute. repeat split; reflexivity.
-Qed.
-Print Assumptions C11_eq_refuted.
+Example C11_fixed_eq_default_ns :   (* bed1ba7: <a k="v"/> vs <a xmlns="d" k="v"/> are no longer equal *)
+  attrs_eq (init_state [] [] [([107%N], [118%N])]) (init_state [100%N] [100%N] [([107%N], [118%N])]) = RBool false.
+Proof. vm_compute. reflexivity. Qed.
 
 (* non-vacuity: a well-formed node under a default namespace, a 13-step run inside the guards that sets,
    fetches, writes through an object, renames it, deletes, reads the removed object and pops *)
